@@ -410,6 +410,25 @@ func (t *xTrial) resolveType(p graphql.ResolveTypeParams, abstract string) *grap
 	return nil
 }
 
+func xPlanCoq(l *graphql.VerifPlanLevel) string {
+	if l == nil {
+		return "(PT false [])"
+	}
+	fs := []string{}
+	for _, f := range l.Fields {
+		ns := []string{}
+		for _, n := range f.Nodes {
+			ns = append(ns, fmt.Sprint(n))
+		}
+		sub := "None"
+		if f.Sub != nil {
+			sub = "(Some " + xPlanCoq(f.Sub) + ")"
+		}
+		fs = append(fs, "("+coqStr(f.Key)+", "+coqList(ns)+", "+sub+")")
+	}
+	return "(PT " + coqBool(l.Dynamic) + " " + coqList(fs) + ")"
+}
+
 // ---- observation ----
 
 func xRespCoq(v interface{}) string {
@@ -499,6 +518,7 @@ func xRun(rq *xRequest) *xObserved {
 	}
 	ctx := context.WithValue(context.Background(), xCtxKey{}, t.ctxTag)
 	var res *graphql.Result
+	planCoq := "None"
 	pm := guard(func() {
 		switch rq.entry {
 		case "do":
@@ -511,9 +531,7 @@ func xRun(rq *xRequest) *xObserved {
 				res = &graphql.Result{Errors: gqlerrors.FormatErrors(err)}
 				return
 			}
-			// first use of the plan with other variables and root, then the observed run
-			t2 := *t
-			_ = t2
+			planCoq = "(Some " + xPlanCoq(graphql.VerifDumpPlan(plan, 12)) + ")"
 			res = graphql.ExecutePlan(plan, graphql.ExecuteParams{Schema: b.Schema, Args: rq.inputs, Root: t.root, Context: ctx})
 		}
 	})
@@ -542,8 +560,8 @@ func xRun(rq *xRequest) *xObserved {
 		seen = "(Some " + t.varsSeen + ")"
 	}
 	inputs := strings.TrimSuffix(strings.TrimPrefix(jvCoq(rq.inputs), "(JObj "), ")")
-	obs.coq = fmt.Sprintf("{| x_kind := %d; x_schema := %s; x_doc := %s; x_op := %s; x_inputs := %s; x_root := (RObj 0 \"root\"); x_oracle := %s; x_toracle := %s; x_rejected := %s; x_data := %s; x_errs := %s; x_calls := %s; x_tcalls := %s; x_varsseen := %s; x_log := %s |}",
-		rq.kind, rq.s.coq(), rq.doc.coq(), opn, inputs, coqList(t.oracle), coqList(t.tover), coqBool(rejected), data, errsCoq, coqList(t.calls), coqList(t.tcalls), seen, coqList(t.log))
+	obs.coq = fmt.Sprintf("{| x_kind := %d; x_schema := %s; x_doc := %s; x_op := %s; x_inputs := %s; x_root := (RObj 0 \"root\"); x_oracle := %s; x_toracle := %s; x_rejected := %s; x_data := %s; x_errs := %s; x_calls := %s; x_tcalls := %s; x_varsseen := %s; x_log := %s; x_plan := %s |}",
+		rq.kind, rq.s.coq(), rq.doc.coq(), opn, inputs, coqList(t.oracle), coqList(t.tover), coqBool(rejected), data, errsCoq, coqList(t.calls), coqList(t.tcalls), seen, coqList(t.log), planCoq)
 	obs.nCalls = len(t.calls)
 	obs.desc["response"] = res
 	obs.desc["resolver_outcomes"] = len(t.oracle)
